@@ -116,6 +116,33 @@ impl IncRun {
         }
     }
 
+    /// raw ADDRESS_WEIGHT_HISTORY of every user: Map<(&Addr, EpochId), Uint128> with namespace "address_weight_snapshot",
+    /// as [{e, w}] ascending in e
+    fn weight_history(&self) -> Value {
+        let dump = self.w.app.dump_wasm_raw(&self.incentive);
+        let mut out = serde_json::Map::new();
+        for (i, u) in self.users.iter().enumerate() {
+            let ns = b"address_weight_snapshot";
+            let mut pre = vec![(ns.len() >> 8) as u8, ns.len() as u8];
+            pre.extend_from_slice(ns);
+            pre.push((u.as_bytes().len() >> 8) as u8);
+            pre.push(u.as_bytes().len() as u8);
+            pre.extend_from_slice(u.as_bytes());
+            let mut rows: Vec<(u64, u128)> = vec![];
+            for (k, v) in &dump {
+                if k.len() == pre.len() + 8 && k.starts_with(&pre) {
+                    let mut b = [0u8; 8];
+                    b.copy_from_slice(&k[pre.len()..]);
+                    let w = serde_json::from_slice::<Uint128>(v).map(|x| x.u128()).unwrap_or(0);
+                    rows.push((u64::from_be_bytes(b), w));
+                }
+            }
+            rows.sort();
+            out.insert(USERS[i].into(), Value::Array(rows.iter().map(|(e, w)| json!({"e": e, "w": s(*w)})).collect()));
+        }
+        Value::Object(out)
+    }
+
     /// flows as (id, creator, asset info, base amount, funded = latest expanded amount, claimed, start, end);
     /// parsed from JSON values (the typed response has integer-keyed maps)
     pub fn flows(&self) -> Vec<FlowView> {
@@ -233,7 +260,7 @@ impl IncRun {
         json!({"open": Value::Object(open), "closed": Value::Object(closed), "wlp": Value::Object(wlp), "rw": Value::Object(rw),
             "lpbal": s(w.balance(&self.incentive, &lpa)), "rbal": Value::Object(rbal), "col": Value::Object(col),
             "flows": flows, "gw": s(self.raw_u128(b"global_weight")), "aw": Value::Object(aw),
-            "epoch": epoch, "snapshot": snap_exists, "share": Value::Object(share)})
+            "epoch": epoch, "snapshot": snap_exists, "share": Value::Object(share), "wh": self.weight_history()})
     }
 
     #[allow(clippy::too_many_arguments)]
@@ -373,9 +400,33 @@ pub fn run_random(rec: &mut Rec, seed: u64, run: u64, nops: usize) {
     // a flow longer than the 180-epoch expansion limit, claimed from and only then expanded for the first time (the
     // expansion re-bases it), then closed - in the staked LP asset itself on every other such run
     let long_campaign = run % 16 == 6;
+    // a flow that is scheduled but has not started, beside a running one; a small staker (its rewards round down to
+    // nothing, so it may close) claims, closes one of its two positions an epoch later and claims again an epoch after
+    // that: the weight its claim writes back must be the one it has left
+    let scheduled_campaign = run % 16 == 14;
     let camp_asset = *gen::pick(&mut r, &["uusdc", "rwd2", "lp"]);
     let camp_dur = DURS[0];
     for step in 0..nops {
+        if scheduled_campaign && step < 17 {
+            let fee: u128 = 1000;
+            let fa = p.fee_asset.clone();
+            let flow_funds = |asset: &str, a: u128| -> Value { if asset == fa { json!([{"d": asset, "amt": s(a)}]) } else { json!([{"d": fa, "amt": s(fee)}, {"d": asset, "amt": s(a)}]) } };
+            let a = 20_000u128 + r.gen_range(0..5_000u128);
+            let stake = |ui: usize, x: u128, d: u64| json!({"amt": s(x), "allow": s(x), "dur": d.to_string(), "recv": USERS[ui]});
+            match step {
+                0 => { let x = 1_000_000_000_000u128 + r.gen_range(0..1_000_000u128); p.step(rec, run, step, "open", 0, stake(0, x, camp_dur)) }
+                1 => { let x = 1000 + r.gen_range(0..1000u128); p.step(rec, run, step, "open", 1, stake(1, x, camp_dur)) }
+                2 => { let x = 1000 + r.gen_range(0..1000u128); p.step(rec, run, step, "open", 1, stake(1, x, DURS[1])) }
+                3 => p.step(rec, run, step, "openflow", 2, json!({"asset": camp_asset, "amt": s(a), "funds": flow_funds(camp_asset, a), "len": 30, "start": 0})),
+                4 => p.step(rec, run, step, "openflow", 2, json!({"asset": camp_asset, "amt": s(a + 11), "funds": flow_funds(camp_asset, a + 11), "len": 12, "start": 100 + r.gen_range(6..9u64)})),
+                5 | 8 | 11 | 14 => p.step(rec, run, step, "newepoch", 0, json!({})),
+                6 | 9 | 12 | 15 => p.step(rec, run, step, "snapshot", 2, json!({})),
+                7 | 13 => p.step(rec, run, step, "claim", 1, json!({})),
+                10 => p.step(rec, run, step, "close", 1, json!({"dur": DURS[1].to_string()})),
+                _ => p.step(rec, run, step, "claim", 0, json!({})),
+            }
+            continue;
+        }
         if (start_witness && step < 10) || (stretch_witness && step < 8) {
             let fee: u128 = 1000;
             let fa = p.fee_asset.clone();
